@@ -56,4 +56,10 @@ if rnd == 3:
     text = text.replace('  B/...          the same for change B', '  B/..., C/...   the same for changes B and C')
     text = text.replace('summarise A and B', 'summarise A, B and C')
     text = text.replace('If you could only\nproduce one convincing change, deliver one and say so.', 'If you could only produce fewer convincing changes, deliver those and say so.')
+if rnd == 4:
+    text = text.replace('produce TWO independent source changes (call them A and B)', 'produce THREE independent source changes (call them A, B and C)')
+    text = text.replace('(for change B pick a different mechanism / code site than for A where possible)', '(each of a different nature: A is made OUTSIDE the code of the mechanism itself - in a shared utility, a base class, a data class (constructor, default value, operator==, copy/move, accessor), a configuration object or another component the mechanism relies on - by someone who changes it for a reason that has nothing to do with this mechanism; B changes an ORDER or a MOMENT - when a signal is emitted relative to a state update, when something is stored, cleared, connected, disconnected or deleted, direct versus queued or deferred execution, what happens when a callback re-enters the mechanism; C changes the handling of a BOUNDARY value - empty, zero, maximum, duplicate, missing, differently-cased, whitespace, non-ASCII or very long input - in a way that looks like a reasonable tightening, normalisation or leniency. None of the three may be just a deleted or negated check in the function a reviewer would look at first)')
+    text = text.replace('  B/...          the same for change B', '  B/..., C/...   the same for changes B and C')
+    text = text.replace('summarise A and B', 'summarise A, B and C')
+    text = text.replace('If you could only\nproduce one convincing change, deliver one and say so.', 'If you could only produce fewer convincing changes, deliver those and say so.')
 print(text)
